@@ -69,9 +69,34 @@ Inductive report : Type :=
 
 Inductive outcome : Type :=
 | Pass                         (* all argument checks passed; the function goes on to its work *)
-| Refuse (v : fval) (r : report).
+| Refuse (v : fval) (r : report)
+| Fault.                       (* the C code dereferences a NULL object pointer: no defined answer *)
 
 Definition callbacks (r : report) : nat :=
   match r with Direct _ => 0%nat | Via _ => 1%nat end.
 
 Definition is_pass (o : outcome) : bool := match o with Pass => true | _ => false end.
+
+(* ------------------------------------------------------------------ order of checks and writes *)
+(* Events in the body of an API function, in the order of the C text (generated per function by
+   translate/errno_orders.py into LV.Gen.ErrnoGen.gen_order_<function>):
+     EvH  handle test (NULL / magic number): errno = EINVAL, failure value, no report
+     EvC  refusing argument check (report, failure value), no write
+     EvA  exit on a failed allocation (VNAERR_SYSTEM): not an argument refusal, outside the model (C12)
+     EvS  early successful exit (may write; control does not come back)
+     EvW  write to the object
+     EvF  write that can fail ("fails later in its work")
+     EvX  call with the object as argument that the translator cannot classify: counted as a write *)
+Inductive ev : Type := EvH | EvC | EvA | EvS | EvW | EvF | EvX.
+
+Definition is_check (e : ev) : bool := match e with EvH | EvC => true | _ => false end.
+Definition is_write (e : ev) : bool := match e with EvW | EvF | EvX => true | _ => false end.
+
+(* every handle test and every refusing argument check precedes the first write *)
+Fixpoint checks_first (sk : list ev) : bool :=
+  match sk with
+  | [] => true
+  | e :: r => if is_write e then negb (existsb is_check r) else checks_first r
+  end.
+
+Definition has_write (sk : list ev) : bool := existsb is_write sk.
